@@ -541,7 +541,16 @@ class Gen:
         for p in params:
             self.declare(p, "num")
         body = self.block(depth - 1, 1, 4)
-        body.append("return %s;" % self.expr(self.r.choice(["num", "str", "bool"]), 2))
+        tail = self.r.below(100)
+        ret = "return %s;" % self.expr(self.r.choice(["num", "str", "bool"]), 2)
+        if tail < 70:
+            body.append(ret)
+        elif tail < 80:
+            body.append("if %s { %s }" % (self.expr("bool", 1), ret))            # may fall off the end: implicit nil
+        elif tail < 90:
+            body.append("if %s { print(\"no return here\"); } else { %s }" % (self.expr("bool", 1), ret))
+        else:
+            body.append("if %s { %s } else { print(\"falls off\"); }" % (self.expr("bool", 1), ret))
         self.pop_fn()
         self.declare(name, "fn:%d" % n, const=True)   # after the body: no recursion
         return ["fn %s(%s) {" % (name, ", ".join(params))] + self.ind(body) + ["}"]
